@@ -421,7 +421,7 @@ func main() {
 	// (the check decides whether the generated table explains them), so that they cannot crowd out others
 	var leakFailures, other []Failure
 	for _, f := range h.failures {
-		if strings.HasPrefix(f.Shape, "site:") && (strings.Contains(f.Shape, "PDefLhs") || strings.Contains(f.Shape, "PSetLhs") || strings.Contains(f.Shape, "PIncludeNonLastFile")) {
+		if strings.HasPrefix(f.Shape, "site:") && siteThroughKnownLeak(f.Shape) {
 			leakFailures = append(leakFailures, f)
 		} else {
 			other = append(other, f)
